@@ -153,15 +153,15 @@ CHECKS = {
             TB + "partial: the proof covers the specification and the wrappers; _hv.c/hv.cpp/pyhv.py are validated against it, not verified. IEEE products of the "
             "dyadic test inputs are exact (checked per case); C compiler, extension loading, numpy.argmax/max trusted.",
             "Lean 4 proof (Mathlib measure theory) over a specification-level model + differential correspondence of two implementations + oracle"),
-    "C18": ("partial",
+    "C18": ("full",
             "Lean theorems C18.* over histories of any length: logbook and chapters are the image of the surviving records (rows_in_order, chapter_fields, "
-            "chapters_aligned, del_exact_index/slice, del_out_of_range, pop_exact_deep/del_exact_deep at every chapter depth), select columns, stream delivers every "
-            "record at most/exactly once, pickle identity, compile_spec/multi_compile_spec; header_once only as header_once_partial (refuted at full strength by "
-            "header_once_fails = known finding F5 header-after-empty); Core/Logbook.lean diffed after every op against deap.tools.Logbook (deep chapter comparison); "
-            "statement evaluated as oracle with plain list semantics.",
-            TB + "text parser (rid >= 100000, header line = cell 'rid'); chapter alignment for records with uniform chapter names; column formatting not modelled; "
-            "that record builds depth-aligned logbooks from records with sub-dictionaries is harness-only.",
-            "Lean 4 proof over a hand-written model + differential correspondence + oracle + known-finding classification"),
+            "chapters_aligned, record_deep_aligned at every chapter depth, del_exact_index/slice, del_out_of_range, pop_exact_deep/del_exact_deep), select columns, "
+            "stream delivers every record at most/exactly once (pairwise different records), header_once at full strength for every history (the former known "
+            "finding F5 is repaired in /repo and modelled: headerStreamed state), header_first, pickle identity incl. the new flag, compile_spec/multi_compile_spec; "
+            "Core/Logbook.lean diffed after every op against deap.tools.Logbook (deep chapter comparison); statement evaluated as oracle with plain list semantics.",
+            TB + "text parser (rid >= 100000, header line = cell 'rid'); records with uniform chapter names at every level; column formatting not modelled; "
+            "stream_*_once need pairwise different records (equal records cannot be told apart in the text).",
+            "Lean 4 proof over a hand-written model + differential correspondence + oracle"),
     "C05": ("full",
             "Lean theorems C05.* (selection_size, selection_subperm, front_priority, one_partial_front_crowding_cut, backend_agnostic, crowding_spec, "
             "selNSGA2_standard, selNSGA2_log_partial) hold over every ordered field for any list of fronts meeting C04's specification (proved for the standard "
@@ -180,16 +180,18 @@ CHECKS = {
             TB + "HARM-GP acceptance arithmetic and the CMA update are outside the model (their results are read off the trace); selectors return members of their input; "
             "initial population = distinct objects, pre-evaluated truthfully; evaluate pure.",
             "Lean 4 proof over a hand-written model + trace refinement + oracle"),
-    "C07": ("partial",
+    "C07": ("full",
             "Lean theorems C07.*: SPEA2 returns exactly k distinct input objects, all non-dominated when #nd<=k, only non-dominated when #nd>=k (incl. the "
             "truncation invariant spea2_to_remove_distinct), for every density/distance value; NSGA-III niching/selNSGA3: exactly k distinct input objects, earlier "
             "fronts whole, niche balance, termination, for every shuffle tape; uniform_reference_points: C(M+p-1,p) distinct simplex points incl. scaling; association "
-            "= argmin of the distance to the reference line (over R); memory = order-independent monotone min/max; quick-select terminates on every pivot tape. "
+            "= argmin of the distance to the reference line (over R); memory = order-independent monotone min/max; quick-select terminates on every pivot tape; normalisation (ideal point, extreme points, intercepts with all fallbacks) "
+            "modelled with positive denominators and translation invariance proved. "
             "Correspondence through the compiled driver on implementation-captured fronts, association and densities; the statement clauses are recomputed independently "
             "as oracle (brute-force ranks, perpendicular distance, balance from the returned selection).",
-            TB + "partial only because of (a) association/normalisation: find_extreme_points/find_intercepts (LAPACK) are not modelled and the argmin theorem is over R, "
-            "correspondence with tolerance 1e-9, near-ties compared on distances only; (b) pareto_fronts are taken from the real sort (C04). All other clauses are "
-            "proof-level. SPEA2 fits values are read from the running frame (theorems hold for any).",
+            TB + "the normalisation is modelled (ideal_min, extreme_argmin, intercepts_cases, intercepts_pos, norm_denominator_pos in full for the code after fix F21, "
+            "association_translation_invariant) with numpy.linalg.solve as a parameter (any solve: the acceptance test guards its answer); the argmin theorem is over R, "
+            "correspondence with tolerance 1e-9, near-ties compared on distances only; pareto_fronts are taken from the real sort (proved in C04). SPEA2 fits values are "
+            "read from the running frame (theorems hold for any).",
             "Lean 4 proof over hand-written models (loop invariants for truncation and niching) + tape-replay correspondence + oracle"),
     "C14": ("partial",
             "Lean theorems over Core/CmaElitist.lean for all inputs: elitism of both (1+lambda) strategies over any history (elitist_never_worse, "
